@@ -491,8 +491,51 @@ fn gcdfactors(rng: &mut Rng, iters: u64) {
 }
 type MIntT = yamaquasi::arith_montgomery::MInt;
 
+/// factor(n, Algo::Rho): must return a factor list or FactoringFailure, never panic
+fn rhofail(rng: &mut Rng, iters: u64) {
+    use yamaquasi::{factor, Algo, Preferences, Verbosity};
+    let mut prefs = Preferences::default();
+    prefs.verbosity = Verbosity::Silent;
+    // products of two primes of equal size are the hardest inputs for rho
+    let mut cands: Vec<u64> = vec![];
+    let mut x = 3u64;
+    while cands.len() < 400 {
+        if yamaquasi::isprime64(x) {
+            cands.push(x);
+        }
+        x += 2;
+    }
+    let mut tested = 0;
+    let _ = cands;
+    // balanced 62-bit semiprimes: 65536 iterations per polynomial is about sqrt(p), so all 9 polynomials fail now and then
+    let mut tested = 0u64;
+    loop {
+        let mut pq = [0u64; 2];
+        for v in pq.iter_mut() {
+            let mut x = ((1u64 << 30) + (1 << 29) + rng.next() % (1 << 29)) | 1;
+            while !yamaquasi::isprime64(x) {
+                x += 2;
+            }
+            *v = x;
+        }
+        if pq[0] == pq[1] {
+            continue;
+        }
+        let n = pq[0] * pq[1];
+        tested += 1;
+        let r = catch_unwind(AssertUnwindSafe(|| factor(Uint::from(n), Algo::Rho, &prefs)));
+        if r.is_err() {
+            fail("rhofail", format!("factor({n} = {} * {}, Algo::Rho): panic (rho finds nothing with its 9 polynomials and factor_impl falls through to unreachable!('impossible') instead of reporting failure)", pq[0], pq[1]));
+        }
+        if tested > iters * 50 {
+            break;
+        }
+    }
+}
+
 pub fn run(case: &str, rng: &mut Rng, iters: u64) -> bool {
     match case {
+        "rhofail" => rhofail(rng, iters),
         "gcdfactors" => gcdfactors(rng, iters),
         "f12" => f12(),
         "f4" => f4(),
